@@ -119,6 +119,9 @@ def gen_srr(rng, max_vox=24000, force_valid=True):
                 s1 = max(1, weff + l0 * M - rng.choice([1, 1, 2]))
             else:
                 seconds = -rng.choice([1, 2]) * scantime
+        elif rng.random() < 0.12:  # both layer kinds with the same number of samples, no warm-up
+            seconds, weff, mode = 0.0, 0, "exact"
+            s0 = s1 = max(l0, l1) * M + rng.choice([0, 1, 2, 5])
         if (l0 * M * p + ov) * (l1 * M * p + ov) * n > max_vox:
             continue
         return {"spotsize": spotsize, "speed": speed, "scantime": scantime, "warmup": seconds, "pairs": pairs,
